@@ -179,6 +179,14 @@ def step (line : String) : String :=
       let o := divmodModel p a b r
       s!"{o.1} {o.2}"
     | _, _, _, _ => "bad-op"
+  | ["matsym", p, A] =>
+    match parseNat? p, parseMat? A with
+    | some p, some A => if p < 3 then "bad-op" else showMat ((matrixProdSym A).map (fun r => r.map (norm p)))
+    | _, _ => "bad-op"
+  | ["tri", i, j] =>
+    match parseNat? i, parseNat? j with
+    | some i, some j => toString (triIndex i j)
+    | _, _ => "bad-op"
   | [op, p, xs] =>
     match parseNat? p, parseIntList? xs with
     | some p, some xs =>
@@ -189,15 +197,7 @@ def step (line : String) : String :=
       | "any" => toString (norm p (anyModel xs))
       | "sum" => toString (norm p (sumI xs))
       | _ => "bad-op"
-    | _, _ =>
-      match op, parseMat? xs with
-      | "matsym", some A => match parseNat? p with
-        | some p => if p < 3 then "bad-op" else showMat ((matrixProdSym A).map (fun r => r.map (norm p)))
-        | none => "bad-op"
-      | _, _ =>
-        match op, parseNat? p, parseNat? xs with
-        | "tri", some i, some j => toString (triIndex i j)
-        | _, _, _ => "bad-op"
+    | _, _ => "bad-op"
   | ["inprod", p, xs, ys] =>
     match parseNat? p, parseIntList? xs, parseIntList? ys with
     | some p, some xs, some ys => if p < 3 then "bad-op" else toString (norm p (dot xs ys))
